@@ -332,4 +332,53 @@ def lmpStages {F : Type} (lens : List Nat) (decoded : List F) : List Nat → Nat
       let r := lmpCount (lens.drop done) (c - sumLens (lens.take done))
       (decoded.drop done).take r.1 :: lmpStages lens decoded cs (done + r.1) r.2
 
+/-! ### TRR: the size guards of `GromacsRunner.get_gromacs_frames` while GROMACS is still running
+
+Mirrors gromacs.py ~828–893 (the `else:` branch: header guard `size >= bytes_read + header_size` with
+`header_size = TRR_HEAD_SIZE` until a header has been read, then the size of the last header; inner
+`while data is None` loop with the guard `size >= bytes_read + data_size`).  A frame is abstracted to the
+byte sizes of its header and of its data block; byte order, precision and the decoding itself are outside
+the model (tie only).  One tick = one evaluation of a guard with the file size observed at that moment. -/
+
+structure TFrame where
+  hsize : Nat
+  dsize : Nat
+
+structure TSt where
+  bytesRead : Nat
+  headerSize : Nat        -- self.header_size, 0 = nothing learned yet
+  pending : Option Nat    -- data size announced by the header just read (inner wait loop), if any
+  k : Nat                 -- number of frames yielded so far
+
+inductive TEv where
+  | read (off len size : Nat)   -- `len` bytes requested at offset `off` while `size` bytes were visible
+  | yield (k : Nat)
+  | wait
+  deriving DecidableEq, Repr
+
+def trrHeadSize : Nat := 1000
+
+def tInit : TSt := { bytesRead := 0, headerSize := 0, pending := none, k := 0 }
+
+def trrTick (frames : List TFrame) (size : Nat) (st : TSt) : TSt × List TEv :=
+  match st.pending with
+  | some d =>
+    if size ≥ st.bytesRead + d then
+      ({ st with bytesRead := st.bytesRead + d, pending := none, k := st.k + 1 },
+        [.read st.bytesRead d size, .yield st.k])
+    else (st, [.wait])
+  | none =>
+    let hs := if st.headerSize = 0 then trrHeadSize else st.headerSize
+    if size ≥ st.bytesRead + hs then
+      match frames[st.k]? with
+      | none => (st, [.wait])      -- past the last frame: cannot happen while size ≤ file length
+      | some f =>
+        ({ st with bytesRead := st.bytesRead + f.hsize, headerSize := f.hsize, pending := some f.dsize },
+          [.read st.bytesRead f.hsize size])
+    else (st, [.wait])
+
+def trrRun (frames : List TFrame) : List Nat → TSt → List TEv
+  | [], _ => []
+  | s :: ss, st => (trrTick frames s st).2 ++ trrRun frames ss (trrTick frames s st).1
+
 end Infretis.Readers
